@@ -207,6 +207,12 @@ func (w *Worker) RunPath(fn *ssa.Function, decisions []Decision) (res *PathResul
 					fmt.Fprintf(os.Stderr, "engine panic: %s\n%s\n", msg, debug.Stack())
 				}
 			} else {
+				if r.lastInstr != nil {
+					msg += " @" + r.eng.Prog.Fset.Position(r.lastInstr.Pos()).String()
+					if r.lastInstr.Parent() != nil {
+						msg += " in " + r.lastInstr.Parent().String()
+					}
+				}
 				res.Outcome, res.Detail = "panic", msg
 				if m, sres := r.model(); sres == smt.Sat {
 					r.finding("panic", "panic", msg, m, "")
@@ -439,6 +445,9 @@ func runFrame(fr *frame) {
 					}
 				}
 			}
+			if i.run != nil {
+				i.run.lastInstr = instr
+			}
 			var k continuation
 			if i.lenient {
 				k = visitLenient(fr, instr)
@@ -495,6 +504,7 @@ type Summary struct {
 	InternalAsm   map[string]int
 	WallS         float64
 	PanicMsgs     map[string]int
+	LastObserves  map[string]string
 	Trivial       int
 	SecondOpinion int
 }
@@ -549,6 +559,9 @@ func (e *Engine) Explore(fn *ssa.Function, workers []*Worker, opts ExploreOpts) 
 					sum.InternalAsm[a]++
 				}
 				sum.Instrs += res.Instrs
+				if len(res.Observes) > 0 {
+					sum.LastObserves = res.Observes
+				}
 				sum.Trivial += res.Trivial
 				sum.SecondOpinion += res.SecondOpinion
 				sum.Queries += res.Queries
